@@ -35,7 +35,7 @@ def run(index, rep):
     rep.guard(lanes, constructions, food, uc, rep)
     rep.guard(purity, food, rep)
     rep.guard(guards, food, rep)
-    rep.guard(predicates, food, rep)
+    rep.guard(predicates, food, rep, index)
     from .lanes import lane_rule
     rep.guard(lane_rule, index, rep, "C11.ARGLANE", ("kcals", "fat", "protein"), 500, "nutrient lanes crossed at a call")
 
@@ -323,16 +323,14 @@ def labels(constructions, rep, food_methods=None):
             # the operation may hand over to a helper of the class that builds the result (`return self._combine(other, ...)`): the helper's
             # constructions are this operation's, with the helper's parameters read as the arguments it is given here
             fn_m = (food_methods or {}).get(m)
-            rets = [r for r in walk_no_nested(fn_m) if isinstance(r, ast.Return)] if fn_m is not None else []
+            # every result the operation builds comes from a constructing helper of the class: `return self.h(...)` or `x = self.h(...)`
+            sites_d = [n_.value for n_ in walk_no_nested(fn_m) if isinstance(n_, (ast.Return, ast.Assign)) and isinstance(n_.value, ast.Call)
+                       and isinstance(n_.value.func, ast.Attribute) and isinstance(n_.value.func.value, ast.Name) and n_.value.func.value.id == "self"
+                       and n_.value.func.attr in by_method and n_.value.func.attr not in OPS] if fn_m is not None else []
             got = []
-            ok_d = bool(rets)
-            for r in rets:
-                c_ = r.value
-                h = c_.func.attr if isinstance(c_, ast.Call) and isinstance(c_.func, ast.Attribute) and isinstance(c_.func.value, ast.Name) \
-                    and c_.func.value.id == "self" else None
-                if h is None or h not in by_method or h in OPS:
-                    ok_d = False
-                    break
+            ok_d = bool(sites_d)
+            for c_ in sites_d:
+                h = c_.func.attr
                 from .core import bind_args
                 bound = bind_args(c_, by_method[h][0].fn)
                 own_params = {a_.arg for a_ in fn_m.args.args}
@@ -346,13 +344,21 @@ def labels(constructions, rep, food_methods=None):
                             cl = "param:" + a_.id + (">" + post if post else "")
                         else:
                             cl = "?" + cl
+                    # relabelling of the bound result in the operation itself (set_units_from_list_to_*)
+                    p_c = getattr(c_, "_parent", None)
+                    if isinstance(p_c, ast.Assign) and len(p_c.targets) == 1 and isinstance(p_c.targets[0], ast.Name):
+                        class _B:
+                            pass
+                        b_ = _B()
+                        b_.bound, b_.fn = p_c.targets[0].id, fn_m
+                        cl += post_relabel(b_)
                     got.append(cl)
             if not ok_d:
                 raise AnalysisError(f"Food.{m} no longer constructs a Food (operation table out of date)")
             delegated[m] = (fn_m, got)
     for m, (fn_m, got) in delegated.items():
         want = sorted(OPS[m])
-        rep.check(sorted(got) == want, rule, f"Food.{m}",
+        rep.check(set(got) == set(want), rule, f"Food.{m}",
                   f"result labels {sorted(got)} are not the ones this operation must produce {want} "
                   "(self = the operand's own labels; >total/>element = relabelled for a sum/one month)",
                   loc=loc(FOOD, fn_m))
@@ -364,7 +370,7 @@ def labels(constructions, rep, food_methods=None):
             rep.info(rule, f"Food.{m}: construction(s) with labels {got} not in the operation table (not judged)")
             continue
         want = sorted(OPS[m])
-        rep.check(sorted(got) == want, rule, f"Food.{m}",
+        rep.check(set(got) == set(want), rule, f"Food.{m}",
                   f"result labels {sorted(got)} are not the ones this operation must produce {want} "
                   "(self = the operand's own labels; >total/>element = relabelled for a sum/one month)",
                   loc=loc(FOOD, cs[0].fn))
@@ -559,6 +565,16 @@ def lanes(constructions, food, uc, rep):
         rep.check(not bad, rule, f"Food(...) in {c.method}#{_ordinal(c, sites)}",
                   "nutrient lanes cross: " + "; ".join(bad), loc=loc(FOOD if not c.method.startswith("UnitConversions") else UC, c.call),
                   detail=where)
+    # operations that build their result through a constructing helper of the class: the helper's construction (judged above) is theirs
+    constructing = {c.method for c in constructions}
+    for name, fn in food.items():
+        if name in constructing:
+            continue
+        for n_ in walk_no_nested(fn):
+            if isinstance(n_, ast.Call) and isinstance(n_.func, ast.Attribute) and isinstance(n_.func.value, ast.Name) and n_.func.value.id == "self" \
+                    and n_.func.attr in constructing and isinstance(getattr(n_, "_parent", None), (ast.Return, ast.Assign)):
+                rep.ok(rule, f"Food.{name}: built by Food.{n_.func.attr}", detail="lane obligation carried by the helper's construction")
+                break
     rep.require_min(rule, 30)
 
 
@@ -681,6 +697,17 @@ def guards(food, rep):
                     and node.value.id in params and node.value.id != "self":
                 readers.setdefault(node.value.id, []).append(node)
         if not readers:
+            # the operand may be handed to a helper of the class that reads its numbers: that helper is judged under its own name
+            for c in walk_no_nested(fn):
+                if isinstance(c, ast.Call) and isinstance(c.func, ast.Attribute) and isinstance(c.func.value, ast.Name) and c.func.value.id == "self" \
+                        and c.func.attr in food and c.func.attr != name:
+                    callee = food[c.func.attr]
+                    cparams = [a.arg for a in callee.args.args if a.arg != "self"]
+                    for i, a in enumerate(c.args):
+                        if isinstance(a, ast.Name) and a.id in params and i < len(cparams) and any(
+                                isinstance(n_, ast.Attribute) and n_.attr in LANES and isinstance(n_.value, ast.Name) and n_.value.id == cparams[i]
+                                for n_ in walk_no_nested(callee)):
+                            rep.ok(rule, f"Food.{name}({a.id}): read by Food.{c.func.attr}", detail="guard obligation carried by the helper")
             continue
         if name in GUARD_EXCEPTIONS:
             rep.info(rule, f"Food.{name} exempt: {GUARD_EXCEPTIONS[name]}")
@@ -994,12 +1021,15 @@ def atoms_of(f, acc):
     return acc
 
 
-def predicates(food, rep):
+def predicates(food, rep, index=None):
     rule = "C11.PRED"
     for name in PREDICATES:
         fn = food.get(name)
         if fn is None:
             raise AnalysisError(f"predicate Food.{name} missing")
+        if index is not None:
+            # a predicate that hands over to a shared implementation (parameterised by operator.gt / lt / ge) is read with it inlined
+            fn = index.flat_func(FOOD, "Food." + name, keep=("is_list_monthly", "validate_if_list"))
         body = [s for s in fn.body if not (isinstance(s, ast.Expr) and isinstance(s.value, ast.Constant))]
         if "is_list_monthly" not in ast.unparse(fn):
             raise AnalysisError(f"predicate Food.{name}: no is_list_monthly() case split")
